@@ -57,13 +57,14 @@ SortedKeys(m) == SortStrs(Keys(m))
 
 \* ============================== C08: ruleHash ==============================
 \* labels and build inputs
-Lab(p, s) == [p |-> p, s |-> s]
-File(s) == [t |-> "f", p |-> <<>>, s |-> s]          \* core.FileLabel: String() = File
-Sys(s) == [t |-> "s", p |-> <<>>, s |-> s]           \* core.SystemPathLabel (tool on PATH): String() = Name
-LabIn(p, s) == [t |-> "l", p |-> p, s |-> s]         \* a build label used as an input
-LabelStr(l) == <<SL, SL>> \o l.p \o <<CO>> \o l.s    \* BuildLabel.String(): //pkg:name
+Lab(r, p, s) == [r |-> r, p |-> p, s |-> s]            \* r = subrepo ("" = the host repository)
+File(s) == [t |-> "f", r |-> <<>>, p |-> <<>>, s |-> s]          \* core.FileLabel: String() = File
+Sys(s) == [t |-> "s", r |-> <<>>, p |-> <<>>, s |-> s]           \* core.SystemPathLabel (tool on PATH): String() = Name
+LabIn(r, p, s) == [t |-> "l", r |-> r, p |-> p, s |-> s]         \* a build label used as an input
+LabelStr(l) == (IF Len(l.r) = 0 THEN <<>> ELSE <<SL, SL, SL>> \o l.r) \o <<SL, SL>> \o l.p \o <<CO>> \o l.s   \* BuildLabel.String(): [///subrepo]//pkg:name
 InputStr(x) == IF x.t = "l" THEN LabelStr(x) ELSE x.s
-LabelLess(x, y) == IF x.p # y.p THEN StrLess(x.p, y.p) ELSE StrLess(x.s, y.s)   \* BuildLabel.Less
+LabelLess(x, y) == IF x.r # y.r THEN StrLess(x.r, y.r)                          \* BuildLabel.Less: subrepo, package, name
+                   ELSE IF x.p # y.p THEN StrLess(x.p, y.p) ELSE StrLess(x.s, y.s)
 
 sP == <<112>>  sQ == <<113>>  sT == <<116>>  sD == <<100>>  sAll == <<97, 108, 108>>
 sBin == <<98, 105, 110>>  sOpt == <<111, 112, 116>>  sDbg == <<100, 98, 103>>
@@ -71,7 +72,7 @@ sTextFile == <<116, 101, 120, 116, 95, 102, 105, 108, 101>>
 ActiveConfig == sOpt                                   \* [build] config default; fallbackconfig = opt too
 
 BaseMin ==
-  [label |-> Lab(sP, sT), deps |-> {}, visibility |-> <<>>, hashes |-> <<>>, srcs |-> <<>>, named_srcs |-> {},
+  [label |-> Lab(<<>>, sP, sT), deps |-> {}, visibility |-> <<>>, hashes |-> <<>>, srcs |-> <<>>, named_srcs |-> {},
    outs |-> {}, named_outs |-> {}, licences |-> <<>>, optional_outs |-> {}, labels |-> <<>>,
    secrets |-> <<>>, named_secrets |-> {}, binary |-> FALSE, subrepo |-> FALSE, sandbox |-> FALSE,
    cmd |-> <<LA>>, cmds |-> {}, needs_transitive_deps |-> FALSE, output_is_complete |-> FALSE,
@@ -82,14 +83,14 @@ BaseMin ==
 \* every field non-empty; group names "bb"/"ba" lie outside the enumerated key domains (AddEntryPoint
 \* panics when an entry point is named like a named output)
 BaseRich ==
-  [BaseMin EXCEPT !.deps = {Lab(sP, sD)}, !.visibility = <<Lab(sQ, sAll)>>, !.hashes = <<<<LA, LB>>>>,
+  [BaseMin EXCEPT !.deps = {Lab(<<>>, sP, sD)}, !.visibility = <<Lab(<<>>, sQ, sAll)>>, !.hashes = <<<<LA, LB>>>>,
      !.srcs = <<File(<<LB>>)>>, !.named_srcs = {[k |-> <<LB, LB>>, v |-> <<File(<<LA>>)>>]},
      !.outs = {<<LA, LA>>}, !.named_outs = {[k |-> <<LB, LB>>, v |-> {<<LB, LA>>}]},
      !.licences = <<<<LB>>>>, !.optional_outs = {<<LB>>}, !.labels = <<<<LA>>>>,
      !.secrets = <<<<SL, LB>>>>, !.named_secrets = {[k |-> <<LB, LB>>, v |-> <<<<SL, LA>>>>]},
      !.binary = TRUE, !.sandbox = TRUE, !.cmd = <<LA, LB>>, !.needs_transitive_deps = TRUE,
      !.output_is_complete = TRUE, !.stamp = TRUE, !.local = TRUE, !.exit_on_error = TRUE,
-     !.requires = <<<<LB>>>>, !.provides = {[k |-> <<LB, LB>>, v |-> <<Lab(sP, sD)>>]},
+     !.requires = <<<<LB>>>>, !.provides = {[k |-> <<LB, LB>>, v |-> <<Lab(<<>>, sP, sD)>>]},
      !.pre_build = TRUE, !.post_build = TRUE, !.pass_env = <<<<LA>>>>,
      !.environ = {[k |-> <<LA>>, v |-> <<LB>>]}, !.output_dirs = <<<<LB>>>>,
      !.entry_points = {[k |-> <<LB, LA>>, v |-> <<LA>>]}, !.env = {[k |-> <<LB, LB>>, v |-> <<LA>>]},
@@ -101,7 +102,7 @@ BaseRec(b) == CASE b = "min" -> BaseMin [] b = "rich" -> BaseRich [] b = "text" 
 InputsOf(t) == {t.srcs[i] : i \in 1..Len(t.srcs)} \cup UNION {{e.v[i] : i \in 1..Len(e.v)} : e \in t.named_srcs}
                \cup {t.tools[i] : i \in 1..Len(t.tools)} \cup UNION {{e.v[i] : i \in 1..Len(e.v)} : e \in t.named_tools}
 \* declared deps + every label used as a source or tool (addSource / AddTool add a dependency)
-AllDeps(t) == t.deps \cup {Lab(x.p, x.s) : x \in {y \in InputsOf(t) : y.t = "l"}}
+AllDeps(t) == t.deps \cup {Lab(x.r, x.p, x.s) : x \in {y \in InputsOf(t) : y.t = "l"}}
 \* "bin" is added by createTarget, then labels, then each require (AddRequire also adds a label)
 ObjLabels(t) == Dedup((IF t.binary THEN <<sBin>> ELSE <<>>) \o t.labels \o t.requires)
 \* allBuildInputs: unnamed first, then the groups by sorted group name
@@ -177,8 +178,14 @@ NE(S) == S \ {<<>>}
 \* strings for the entries of list attributes: closed under the splits that make concatenation ambiguous
 AdvStr(n) == IF ~Slim THEN NE(StrN(n))
              ELSE IF n >= 2 THEN {<<LA>>, <<LB>>, <<EQ>>, <<LA, LB>>, <<LA, EQ>>, <<EQ, LB>>} ELSE {<<LA>>, <<EQ>>, <<LA, EQ>>}
-TwoLabels == {Lab(sP, <<LA>>), Lab(sP, <<LB>>)}
-FewLabels == TwoLabels \cup {Lab(sP, <<LA, LB>>), Lab(<<112, LA>>, <<LB>>), Lab(sQ, <<LA>>)}
+sSub == <<115>>  sSub2 == <<115, 50>>                      \* subrepos "s" and "s2"
+PA == Lab(<<>>, sP, <<LA>>)   PB == Lab(<<>>, sP, <<LB>>)
+SPA == Lab(sSub, sP, <<LA>>)                               \* ///s//p:a: differs from //p:a in the subrepo only
+S2PA == Lab(sSub2, sP, <<LA>>)                             \* ///s2//p:a: differs from ///s//p:a in the subrepo only
+TwoLabels == {PA, PB}
+FewLabels == TwoLabels \cup {Lab(<<>>, sP, <<LA, LB>>), Lab(<<>>, <<112, LA>>, <<LB>>), Lab(<<>>, sQ, <<LA>>), SPA, S2PA}
+\* values of a provides entry: lists of labels, with labels that differ in the subrepo only
+ProvVals == {<<>>, <<PA>>, <<PB>>, <<SPA>>, <<S2PA>>, <<PA, PB>>, <<PA, SPA>>, <<SPA, PA>>}
 SmallStr == {<<LA>>, <<LB>>, <<LB, LA>>}
 GroupKeys == {<<LA>>, <<LB>>, <<LA, LB>>}
 MapKeys(n) == IF n >= 2 THEN {<<LA>>, <<LB>>, <<LA, EQ>>} ELSE {<<LA>>, <<LA, EQ>>}
@@ -189,8 +196,9 @@ SecretStrs(n) == IF Slim THEN {<<SL>>, <<SL, LA>>, <<SL, LA, SL>>, <<SL, EQ>>, <
 \* srcs / outs / tools / secrets are a list OR a dict in the BUILD language: [l |-> unnamed, n |-> named]
 Dual(ls, ns) == {[l |-> x, n |-> {}] : x \in ls} \cup {[l |-> <<>>, n |-> m] : m \in ns \ {{}}}
 DualSet(ls, ns) == {[l |-> x, n |-> {}] : x \in ls} \cup {[l |-> {}, n |-> m] : m \in ns \ {{}}}
-SrcElems(n) == {File(s) : s \in AdvStr(n)} \cup {LabIn(sP, <<LA>>)}
-ToolElems == {Sys(<<LA>>), Sys(<<LB>>), Sys(<<LA, LB>>), LabIn(sP, <<LA>>), LabIn(sP, <<LB>>)}
+SrcElems(n) == {File(s) : s \in AdvStr(n)} \cup {LabIn(<<>>, sP, <<LA>>), LabIn(sSub, sP, <<LA>>)}
+ToolElems == {Sys(<<LA>>), Sys(<<LB>>), Sys(<<LA, LB>>), LabIn(<<>>, sP, <<LA>>), LabIn(<<>>, sP, <<LB>>),
+              LabIn(sSub, sP, <<LA>>), LabIn(sSub2, sP, <<LA>>)}
 UnlistedBools == {"subrepo", "needs_transitive_deps", "output_is_complete", "stamp", "local",
                   "src_list_files", "exit_on_error", "pre_build", "post_build"}
 DomOf(attr, n) ==
@@ -200,7 +208,7 @@ DomOf(attr, n) ==
     [] attr = "optional_outs" -> Sets2(AdvStr(n))
     [] attr = "deps" -> Sets2(FewLabels)
     [] attr = "tools" -> Dual(Lists2(ToolElems),
-                              Maps({<<LA>>, <<LB>>}, {<<x>> : x \in {Sys(<<LA>>), Sys(<<LB>>), LabIn(sP, <<LA>>)}}, 2))
+                              Maps({<<LA>>, <<LB>>}, {<<x>> : x \in {Sys(<<LA>>), Sys(<<LB>>), LabIn(<<>>, sP, <<LA>>), LabIn(sSub, sP, <<LA>>)}}, 2))
     [] attr = "env" -> Maps(MapKeys(n), MapVals(n), 2)
     [] attr = "entry_points" -> Maps(MapKeys(n), MapVals(n), 2)
     [] attr = "pass_env" -> Lists2({<<LA>>, <<LB>>, <<LA, EQ>>, <<EQ>>})
@@ -215,9 +223,9 @@ DomOf(attr, n) ==
     [] attr = "cmd" -> StrN(n)
     [] attr = "cmds" -> Maps({sOpt, sDbg}, {<<LA>>, <<LB>>}, 2) \ {{}}
     [] attr = "requires" -> Lists2(AdvStr(n))
-    [] attr = "provides" -> Maps(MapKeys(n), Lists2(TwoLabels), IF n >= 2 THEN 2 ELSE 1)
+    [] attr = "provides" -> Maps(MapKeys(n), ProvVals, IF n >= 2 THEN 2 ELSE 1)
     \* hashed but not in the statement's list: enumerated for the design result only, never a verdict
-    [] attr = "visibility" -> Lists2({Lab(sQ, sAll), Lab(sP, sAll)})
+    [] attr = "visibility" -> Lists2({Lab(<<>>, sQ, sAll), Lab(<<>>, sP, sAll)})
     [] attr = "hashes" -> Lists2(NE(StrN(1)))
     [] attr = "licences" -> DupFree2(NE(StrN(1)))
     [] attr \in UnlistedBools -> BOOLEAN
@@ -285,28 +293,28 @@ NextRule == /\ st.kind = "val"
 SpecRule == InitRule /\ [][NextRule]_vars
 
 IsPair == st.kind = "pair"
-PA == Groups[st.g].tgt[st.i]
-PB == Groups[st.g].tgt[st.j]
+TgtA == Groups[st.g].tgt[st.i]
+TgtB == Groups[st.g].tgt[st.j]
 PAttr == Groups[st.g].attr
 \* design-level invariants (these hold)
-FixDistinguishes == CheckFix /\ IsPair /\ Relevant(PAttr, PA, PB) => Groups[st.g].fix[st.i] # Groups[st.g].fix[st.j]
+FixDistinguishes == CheckFix /\ IsPair /\ Relevant(PAttr, TgtA, TgtB) => Groups[st.g].fix[st.i] # Groups[st.g].fix[st.j]
 SafeAttrsDistinguished == IsPair /\ PAttr \in SafeAttrs => ~Collide(st.g, st.i, st.j)
 CollisionsClassified == IsPair /\ Collide(st.g, st.i, st.j) =>
-      ClassOf(PAttr, Groups[st.g].val[st.i], Groups[st.g].val[st.j], PA, PB) # "unexpected"
-IrrelevantOnlyInactive == IsPair /\ ~Relevant(PAttr, PA, PB) => Collide(st.g, st.i, st.j)
+      ClassOf(PAttr, Groups[st.g].val[st.i], Groups[st.g].val[st.j], TgtA, TgtB) # "unexpected"
+IrrelevantOnlyInactive == IsPair /\ ~Relevant(PAttr, TgtA, TgtB) => Collide(st.g, st.i, st.j)
 \* C08 itself on the algorithm model: violated by design on the pinned tree, never configured as an invariant
-C08Model == IsPair /\ Relevant(PAttr, PA, PB) => ~Collide(st.g, st.i, st.j)
+C08Model == IsPair /\ Relevant(PAttr, TgtA, TgtB) => ~Collide(st.g, st.i, st.j)
 \* case generation: every value once (with its target and byte serialisation), every colliding pair with its class
 EmitRule ==
   Emit => IF st.kind = "val"
           THEN PrintT(<<"CASE", ToJson([kind |-> "val", g |-> st.g, i |-> st.i, base |-> Groups[st.g].base,
                                         attr |-> PAttr, listed |-> PAttr \in ListedAttrs,
-                                        t |-> PA, ser |-> Groups[st.g].ser[st.i]])>>)
+                                        t |-> TgtA, ser |-> Groups[st.g].ser[st.i]])>>)
           ELSE Collide(st.g, st.i, st.j) =>
                PrintT(<<"CASE", ToJson([kind |-> "pair", g |-> st.g, i |-> st.i, j |-> st.j,
                          attr |-> AttrName(PAttr, Groups[st.g].val[st.i], Groups[st.g].val[st.j]),
-                         relevant |-> Relevant(PAttr, PA, PB),
-                         cls |-> ClassOf(PAttr, Groups[st.g].val[st.i], Groups[st.g].val[st.j], PA, PB)])>>)
+                         relevant |-> Relevant(PAttr, TgtA, TgtB),
+                         cls |-> ClassOf(PAttr, Groups[st.g].val[st.i], Groups[st.g].val[st.j], TgtA, TgtB)])>>)
 
 \* ============================== C09: PathHasher.hash ==============================
 \* a node: file (c = content), symlink (c = target as written in the link), directory (es = entries sorted by name)
@@ -316,16 +324,21 @@ D(es) == [k |-> "d", c |-> <<>>, es |-> es]
 Absent == [k |-> "none", c |-> <<>>, es |-> <<>>]
 Names == <<<<LA>>, <<LB>>>>                                    \* in directory order
 Contents == {<<>>, <<LX>>, <<LX, LY>>, <<LY>>}
-LinkTargets == {<<LA>>, <<LB>>}                                 \* relative targets
-Leaves == {F(c) : c \in Contents} \cup {Lnk(c) : c \in LinkTargets}
+RelTargets == {<<LA>>, <<LB>>}       \* relative targets: inside a directory they name a sibling, which may be a regular file
+                                     \* sorting after the link, a directory, the link itself, or nothing (dangling)
+AbsTargets == {<<SL, LA>>}           \* an absolute target outside the repository (/a); only below the hashed path: a hashed
+                                     \* path that is itself such a link is a "system tool" hashed by the content behind it (not modelled)
+IsAbsTarget(c) == Len(c) > 0 /\ Head(c) = SL
+RootLeaves == {F(c) : c \in Contents} \cup {Lnk(c) : c \in RelTargets}
+Leaves == RootLeaves \cup {Lnk(c) : c \in AbsTargets}
 MkDir(names, f) == D(SelectSeq([i \in 1..Len(names) |-> [n |-> names[i], t |-> f[i]]], LAMBDA e : e.t.k # "none"))
 DirsOver(names, S) == {MkDir(names, f) : f \in [1..Len(names) -> S \cup {Absent}]}
 RECURSIVE SumSeq(_)
 SumSeq(s) == IF Len(s) = 0 THEN 0 ELSE Head(s) + SumSeq(Tail(s))
 RECURSIVE Size(_)                                             \* number of entries below the node
 Size(t) == IF t.k # "d" THEN 0 ELSE Len(t.es) + SumSeq([i \in 1..Len(t.es) |-> Size(t.es[i].t)])
-T1 == Leaves \cup DirsOver(Names, Leaves)
-T2 == Leaves \cup DirsOver(Names, T1)
+T1 == RootLeaves \cup DirsOver(Names, Leaves)
+T2 == RootLeaves \cup DirsOver(Names, Leaves \cup DirsOver(Names, Leaves))
 Trees == {t \in (IF TreeDepth = 1 THEN T1 ELSE T2) : Size(t) <= TreeMaxEntries}
 
 \* ---- algorithm level: what hash() writes (timestamp = false, no xattrs)
@@ -338,6 +351,9 @@ SerWalk(d) == Cat([i \in 1..Len(d.es) |->
 SerTree(t) == IF t.k = "l" THEN <<2>> \o t.c          \* the path itself is a link with a relative target: marker + target
               ELSE IF t.k = "d" THEN SerWalk(t)
               ELSE t.c                                  \* fileHash: the content
+\* hash() succeeds on every tree of these bounds: links below the hashed path are never followed (dangling,
+\* self-referential and absolute ones included), a hashed path that is a relative link is never opened
+Hashable(t) == t.k = "l" => ~IsAbsTarget(t.c)
 \* a delimited tree serialisation (the proposed repair), injective (invariant TreeFixDistinguishes)
 RECURSIVE SerTreeFix(_)
 SerTreeFix(t) == IF t.k = "f" THEN <<1>> \o W(t.c) ELSE IF t.k = "l" THEN <<2>> \o W(t.c)
@@ -361,7 +377,8 @@ Parent(p) == SubSeq(p, 1, Len(p) - 1)
 \*   [root-]content, [root-]symlink-target, [root-]kind:x/y   same path, both present
 \*   entry-name      an entry of one tree is in the other under another name in the same directory
 \*   position        ... in another directory
-\*   entry-added-or-removed   an entry with no equal counterpart
+\*   entry-added-or-removed:K  an entry with no equal counterpart; K = what it is (link, file, empty-file, dir)
+NodeSort(x) == IF x.k = "l" THEN "link" ELSE IF x.k = "d" THEN "dir" ELSE IF Len(x.c) = 0 THEN "empty-file" ELSE "file"
 DiffTokens(a, b) ==
   LET ds == DiffRec(a, b, <<>>)
       oa == {r \in ds : r.d = "only-a"}
@@ -371,13 +388,16 @@ DiffTokens(a, b) ==
       mov == {r \in oa \ ren : \E s \in ob : s.y = r.x}
       lone == {r \in oa \ (ren \cup mov) : TRUE} \cup {s \in ob : ~\E r \in oa : r.x = s.y}
       tok(r) == IF r.d \in {"only-a", "only-b"}
-                THEN (IF r \in ren THEN "entry-name" ELSE IF r \in mov THEN "position" ELSE "entry-added-or-removed")
+                THEN (IF r \in ren THEN "entry-name" ELSE IF r \in mov THEN "position"
+                      ELSE "entry-added-or-removed:" \o NodeSort(IF r.d = "only-a" THEN r.x ELSE r.y))
                 ELSE (IF r.p = <<>> THEN "root-" \o r.d ELSE r.d)
   IN SetToSeq({[tok |-> tok(r), p |-> r.p] : r \in same \cup ren \cup mov \cup lone})
 \* the class: the token when the trees differ in exactly one elementary way, else "multiple"
 DiffClass(a, b) == LET ts == DiffTokens(a, b) IN IF Len(ts) = 1 THEN ts[1].tok ELSE "multiple"
 \* single differences that the serialisation does distinguish within these bounds
-HoldingClasses == {"root-content", "root-symlink-target", "root-kind:f/l", "content", "kind:f/l"}
+\* (adding or removing a symlink - whatever its target, relative or absolute - or a non-empty file always changes the bytes)
+HoldingClasses == {"root-content", "root-symlink-target", "root-kind:f/l", "content", "kind:f/l",
+                   "entry-added-or-removed:link", "entry-added-or-removed:file"}
 
 TreeSeq == TLCEval(SetToSeq(Trees))
 TreeSer == TLCEval([i \in 1..Len(TreeSeq) |-> SerTree(TreeSeq[i])])
@@ -394,7 +414,7 @@ HoldingClassesDistinguished == IsPair /\ TreeCollide => DiffClass(TreeSeq[st.i],
 C09Model == IsPair => ~TreeCollide
 EmitTree ==
   Emit => IF st.kind = "val"
-          THEN PrintT(<<"CASE", ToJson([kind |-> "val", i |-> st.i, tree |-> TreeSeq[st.i], ser |-> TreeSer[st.i]])>>)
+          THEN PrintT(<<"CASE", ToJson([kind |-> "val", i |-> st.i, tree |-> TreeSeq[st.i], ser |-> TreeSer[st.i], hashable |-> Hashable(TreeSeq[st.i])])>>)
           ELSE (TreeCollide \/ (st.i * 100000 + st.j) \in Wanted) =>
                PrintT(<<"CASE", ToJson([kind |-> "pair", i |-> st.i, j |-> st.j, collide |-> TreeCollide,
                                         cls |-> DiffClass(TreeSeq[st.i], TreeSeq[st.j]),
@@ -437,7 +457,7 @@ SpecSim == InitSim /\ [][NextSim]_vars
 SimFix == st.a # st.b => SerTreeFix(st.a) # SerTreeFix(st.b)
 SimHolding == st.a # st.b /\ SerTree(st.a) = SerTree(st.b) => DiffClass(st.a, st.b) \notin HoldingClasses
 EmitSim == Emit /\ st.a # st.b =>
-             PrintT(<<"CASE", ToJson([kind |-> "sim", a |-> st.a, b |-> st.b, sa |-> SerTree(st.a), sb |-> SerTree(st.b),
+             PrintT(<<"CASE", ToJson([kind |-> "sim", a |-> st.a, b |-> st.b, sa |-> SerTree(st.a), sb |-> SerTree(st.b), hashable |-> Hashable(st.a) /\ Hashable(st.b),
                                       collide |-> SerTree(st.a) = SerTree(st.b), cls |-> DiffClass(st.a, st.b),
                                       toks |-> DiffTokens(st.a, st.b)])>>)
 =============================================================================
